@@ -40,6 +40,15 @@ def durObj := "sync.atomic_dur.AtomicDuration.0"
     by a later coroutine within one scenario; who the canceller's victim is comes from the `victims` table -/
 def cinst (_c : Co) : Option (String × Nat) := none
 
+/-- result of the disarm mark (hook points of pending_hooks/wp-io3.patch, made after `event_data` was nulled, under the cell's lock):
+    1 = the entry still held its value (from now on it can only pop as a no-op), 0 = the timer thread had taken it out before (its
+    handler will still run). Trees without the timer-handle fix have the older mark (always 0, made before the nulling) -/
+def disRes (st : St) (s : Sock) : LArg :=
+  if !st.fixOwn then .any else
+  match st.tslot s with
+  | some t => (match st.tm t with | .armed _ => .num 1 | _ => .num 0)
+  | none => .any
+
 def optCo : Option Co → LArg
   | none => .num (-1)
   | some _ => .ne (-1)
@@ -60,20 +69,23 @@ def label (st : St) (a : Actor) (e : Env) : Label :=
     | .clear _, _ => { obj := cioObj, inst := cinst c, op := "opt.take",
                        res := match st.cio c with | none => .num (-1) | some s => .id "sock" s }
     | .store s, _ => { obj := flagObj, inst := sk s, op := "store", a1 := .num 0, ord := "Relaxed" }
-    | _, .delTimer s => { obj := flagObj, inst := sk s, op := "t.disarm", a1 := .num 1 }
+    | _, .delTimer s => { obj := flagObj, inst := sk s, op := "t.disarm", a1 := .num 1, res := disRes st s }
     | _, .del s => { obj := flagObj, inst := sk s, op := "io.del" }
     | _, _ => { kind := "silent", op := "-" }
   | .k i =>
     match st.kpc i with
     | .start s c _ => { obj := flagObj, inst := sk s, op := "t.arm", a1 := .num ((st.dur c).getD 0) }
+    | .arm s _ _ => { obj := flagObj, inst := sk s, op := "t.armed", a1 := .any }
     | .set s _ _ _ => { obj := flagObj, inst := sk s, op := "t.set" }
     | .store s _ _ => { obj := coObj, inst := sk s, op := "opt.store", a1 := .ne (-1) }
     | .load s _ _ => { obj := flagObj, inst := sk s, op := "load", res := .num (st.flag s), ord := "Acquire" }
     | .take s => { obj := coObj, inst := sk s, op := "opt.take", res := optCo (st.slot s) }
-    -- (the timer handle cell is a RefCell, `t.set` / `t.fire` are logged next to – not atomically with – its accesses: when the
-    -- timer fires while the handle is being stored, the model's idea of "handle present" can be off by one; the replay therefore
-    -- accepts the disarm event, or its absence, whatever the model's `tslot` says)
-    | .dis s _ => { obj := flagObj, inst := sk s, op := "t.disarm", a1 := .num 0 }
+    -- (without the timer-handle fix the cell is a RefCell, `t.set` / `t.fire` are logged next to – not atomically with – its accesses:
+    -- when the timer fires while the handle is being stored, the model's idea of "handle present" can be off by one; the replay
+    -- therefore accepts the disarm event, or its absence, whatever the model's `tslot` says. With the fix the marks are made under
+    -- the cell's lock: the event is there iff the model's cell holds a handle – `normalize` runs the event-less disarm steps)
+    | .dis s _ => { obj := flagObj, inst := sk s, op := "t.disarm", a1 := .num 0, res := disRes st s }
+    | .xDis s _ => { obj := flagObj, inst := sk s, op := "t.disarm", a1 := .num 2, res := disRes st s }
     | .reg s c => { obj := cioObj, inst := cinst c, op := "opt.store", a1 := .id "sock" s }
     | .chk c => { obj := cstObj, inst := cinst c, op := "load", res := .num (b2i (st.cbit c)), ord := "Acquire" }
     | .xor c => { obj := cstObj, inst := cinst c, op := "fetch_or", a1 := .num 1, res := .num (b2i (st.cbit c)), ord := "Release" }
@@ -82,18 +94,20 @@ def label (st : St) (a : Actor) (e : Env) : Label :=
     | .xtake s | .own s => { obj := coObj, inst := sk s, op := "opt.take", res := optCo (st.slot s) }
     | .reg0 s c _ => { obj := cioObj, inst := cinst c, op := "opt.store", a1 := .id "sock" s }
     | .chk2 _ c => { obj := cstObj, inst := cinst c, op := "load", res := .num (b2i (st.cbit c)), ord := "Acquire" }
-    | .ownDis s _ => { obj := flagObj, inst := sk s, op := "t.disarm", a1 := .num 0 }
+    | .ownDis s _ => { obj := flagObj, inst := sk s, op := "t.disarm", a1 := .num 0, res := disRes st s }
     | .off => { kind := "silent", op := "-" }
   | .w i =>
     match st.wpc i, e with
     | .idle, .deliver s bits => { obj := flagObj, inst := sk s, op := "fetch_or", a1 := .num bits, res := .num (st.flag s), ord := "Release" }
     | .idle, .fire t => (match st.tm t with
-        | .armed s => { obj := flagObj, inst := sk s, op := "t.fire" }
+        | .armed s | .popped s => { obj := flagObj, inst := sk s, op := "t.fire" }
         | _ => { kind := "note", op := "io_timer", a1 := .any })
     | .idle, .cancel c => { obj := cstObj, inst := cinst c, op := "fetch_or", a1 := .num 1, res := .num (b2i (st.cbit c)), ord := "Release" }
     | .fOr s _, _ => { obj := flagObj, inst := sk s, op := "fetch_or", a1 := .num timeoutBit, res := .num (st.flag s), ord := "Release" }
     | .sTake s, _ | .fTake s _, _ | .xtake s, _ => { obj := coObj, inst := sk s, op := "opt.take", res := optCo (st.slot s) }
-    | .sDis s _, _ => { obj := flagObj, inst := sk s, op := "t.disarm", a1 := .num 0 }
+    | .sDis s _, _ => { obj := flagObj, inst := sk s, op := "t.disarm", a1 := .num 0, res := disRes st s }
+    | .xDis s _, _ => { obj := flagObj, inst := sk s, op := "t.disarm", a1 := .num 2, res := disRes st s }
+    | .fChk s t, _ => { obj := flagObj, inst := sk s, op := if st.tslot s = some t then "t.own" else "t.stale" }
     | .xio c, _ => { obj := cioObj, inst := cinst c, op := "opt.take",
                      res := match st.cio c with | none => .num (-1) | some s => .id "sock" s }
     | _, _ => { kind := "silent", op := "-" }
@@ -104,12 +118,12 @@ def upcName : UPc → String
   | .pre _ => "u.pre" | .wait _ => "u.wait" | .back _ => "u.back" | .clear _ => "u.clear" | .store _ => "u.store"
   | .done (.val _) => "u.done" | .done .timedOut => "u.done(TimedOut)" | .done .canceled => "u.done(Cancel)"
 def kpcName : KPc → String
-  | .off => "k.off" | .start .. => "k.start" | .set .. => "k.set" | .store .. => "k.store" | .load .. => "k.load" | .take _ => "k.take"
-  | .dis .. => "k.dis" | .reg .. => "k.reg" | .chk _ => "k.chk" | .xor _ => "k.xor" | .xio _ => "k.xio" | .xtake _ => "k.xtake"
+ | .off => "k.off" | .start .. => "k.start" | .arm .. => "k.arm" | .set .. => "k.set" | .store .. => "k.store" | .load .. => "k.load" | .take _ => "k.take"
+  | .dis .. => "k.dis" | .reg .. => "k.reg" | .chk _ => "k.chk" | .xor _ => "k.xor" | .xio _ => "k.xio" | .xtake _ => "k.xtake" | .xDis .. => "k.xDis"
   | .reg0 .. => "k.reg0" | .chk2 .. => "k.chk2" | .own _ => "k.own" | .ownDis .. => "k.ownDis"
 def wpcName : WPc → String
-  | .idle => "w.idle" | .sTake _ => "w.sTake" | .sDis .. => "w.sDis" | .fOr .. => "w.fOr" | .fTake .. => "w.fTake" | .xio _ => "w.xio"
-  | .xtake _ => "w.xtake"
+  | .idle => "w.idle" | .sTake _ => "w.sTake" | .sDis .. => "w.sDis" | .fChk .. => "w.fChk" | .fOr .. => "w.fOr" | .fTake .. => "w.fTake" | .xio _ => "w.xio"
+  | .xtake _ => "w.xtake" | .xDis .. => "w.xDis"
 
 /-- transition name for coverage: pc plus the branch taken -/
 def transName (st : St) (a : Actor) (e : Env) : String :=
@@ -131,8 +145,9 @@ def transName (st : St) (a : Actor) (e : Env) : String :=
       | _ => "")
   | .w i => wpcName (st.wpc i) ++ (match st.wpc i, e with
       | .idle, .deliver .. => "/deliver" | .idle, .cancel _ => "/cancel"
-      | .idle, .fire t => (match st.tm t with | .armed _ => "/fire" | _ => "/fire-null")
+      | .idle, .fire t => (match st.tm t with | .armed _ => "/fire" | .popped _ => "/fire-late" | _ => "/fire-null")
       | .sTake s, _ | .fTake s _, _ | .xtake s, _ => if (st.slot s).isSome then "/some" else "/none"
+      | .fChk s t, _ => if st.tslot s = some t then "/own" else "/stale"
       | .xio c, _ => if (st.cio c).isSome then "/some" else "/none"
       | _, _ => "")
   | .env => "env"
@@ -201,11 +216,14 @@ def wakePrefix (st : St) (c : Co) : Option (List (Actor × Env)) :=
   | .wait _ =>
     if st.queued c then some [(.u c, .resume)]
     else match st.loc c with
+      -- (only the trees without the timer-handle fix get here: with it, `normalize` has already run every event-less disarm step and a
+      --  disarm that finds a handle must show its event)
       | .heldK k => (match st.kpc k with
-          | .dis _ _ => some [(.k k, .go)]
+          | .dis _ _ => if st.fixOwn then none else some [(.k k, .go)]
+          | .ownDis _ _ => if st.fixOwn then none else some [(.k k, .go), (.u c, .resume)]
           | _ => none)
       | .heldW w => (match st.wpc w with
-          | .sDis _ _ => some [(.w w, .go), (.u c, .resume)]
+          | .sDis _ _ => if st.fixOwn then none else some [(.w w, .go), (.u c, .resume)]
           | _ => none)
       | _ => none
   | _ => some []
@@ -276,7 +294,7 @@ def workerCands (r0 : RSt) (ev : Event) : List Cand :=
       offer r (if st.pend s then [] else [(.env, .edge s)]) (.w w) (.deliver s bits)
     else if ev.obj == flagObj && ev.op == "t.fire" then
       let (r, s) := sockOf r ev
-      ((List.range st.nextTm).filter fun t => st.tm t == .armed s).flatMap fun t =>
+      ((List.range st.nextTm).filter fun t => st.tm t == .armed s || st.tm t == .popped s).flatMap fun t =>
         offer r (if st.deadline t ≤ st.now then [] else [(.env, .tick (st.deadline t - st.now))]) (.w w) (.fire t)
     else if ev.kind == "note" && ev.op == "io_timer" then
       let cs := ((List.range st.nextTm).filter fun t => st.tm t == .disarmed).flatMap fun t =>
@@ -304,16 +322,6 @@ def tailCands (r : RSt) (ev : Event) : List Cand :=
     let io := (ev.obj == flagObj && ev.op == "t.arm") || (ev.obj == coObj && ev.op == "opt.store") || early
     if !io then skipCand { r with foreign := ev.actor :: r.foreign } ev "foreign-tail" else
     let (r, s) := if early then sockTok r ev.a1.str else sockOf r ev
-    -- configuration discovery: a tail that registers for cancel before anything else is the code with
-    -- pending_fixes/io-stale-set_io.patch; from then on the model runs that variant (a tail created under the other assumption
-    -- and not yet started is moved to its first program point)
-    let r := if early then
-        let st := r.st
-        let kpc' := fun (i : Nat) => match st.kpc i with
-          | .start s' c' true | .store s' c' true => if s' == s && !(r.names.any fun p => p.2 == .k i) then .reg0 s' c' true else st.kpc i
-          | x => x
-        { r with st := { st with regFirst := true, kpc := kpc' } }
-      else r
     let bound := fun (i : Nat) => r.names.any fun p => p.2 == .k i
     let fresh := fun (stx : St) => (List.range stx.nk).find? fun i =>
       !bound i && (match stx.kpc i with | .start s' _ _ | .store s' _ _ | .reg0 s' _ _ => s' == s | _ => false)
@@ -328,6 +336,36 @@ def tailCands (r : RSt) (ev : Event) : List Cand :=
         else []
       | none => []
 
+/-- with the timer-handle fix: run the disarm steps that produce no event (the cell holds no handle; nobody holds its lock) -/
+def normalize (r : RSt) : RSt :=
+  if !r.st.fixOwn then r else
+  r.names.foldl (fun r p =>
+    let st := r.st
+    match p.2 with
+    | .w i => (match st.wpc i with
+        | .sDis s _ | .xDis s _ =>
+            if (st.tslot s).isNone && !st.tlock s then (match step st (.w i) .go with | some st' => { r with st := st' } | none => r) else r
+        | _ => r)
+    | .k i => (match st.kpc i with
+        | .dis s _ | .ownDis s _ | .xDis s _ =>
+            if (st.tslot s).isNone && !st.tlock s then (match step st (.k i) .go with | some st' => { r with st := st' } | none => r) else r
+        | _ => r)
+    | _ => r) r
+
+/-- a disarm that found the entry's value gone: the timer thread had popped it (unobservable) – let the environment do that first -/
+def popBeforeDisarm (r : RSt) (ev : Event) : RSt :=
+  if r.st.fixOwn && ev.obj == flagObj && ev.op == "t.disarm" && numOf ev.res == 0 then
+    match lookup r.socks ev.inst with
+    | some s => (match r.st.tslot s with
+        | some t => (match r.st.tm t with
+            | .armed _ =>
+                let pre : List (Actor × Env) := (if r.st.deadline t ≤ r.st.now then [] else [(.env, .tick (r.st.deadline t - r.st.now))]) ++ [(.env, .pop t)]
+                (match applyAll r.st pre with | some st' => { r with st := st' } | none => r)
+            | _ => r)
+        | none => r)
+    | none => r
+  else r
+
 def isBornSock (ev : Event) : Bool :=
   ev.kind == "note" && ev.op == "born" && (match ev.a1 with | .id s => s.startsWith "EventData" | _ => false)
 
@@ -339,7 +377,8 @@ def evenCst (ev : Event) (cs : List Cand) : List Cand :=
     cs.map fun (l, x, nm) => if l.obj == cstObj && l.op == "load" && l.res == .num 0 then ({ l with res := .any }, x, nm) else (l, x, nm)
   else cs
 
-def cands (r : RSt) (_t : Nat) (ev : Event) : List Cand :=
+def cands (r0 : RSt) (_t : Nat) (ev : Event) : List Cand :=
+  let r := popBeforeDisarm (normalize r0) ev
   evenCst ev <|
   if isBornSock ev then [({ kind := "note", op := "born" }, { r with bornSeen := true }, "born")]
   else if ev.kind == "ret" then
@@ -370,7 +409,8 @@ def cands (r : RSt) (_t : Nat) (ev : Event) : List Cand :=
       | _ => false
     if busy then workerCands r ev else userCands r ev ++ workerCands r ev
 
-def allQuiet (r : RSt) : Option String :=
+def allQuiet (r0 : RSt) : Option String :=
+  let r := normalize r0
   if !r.bornSeen then
     some "no `born EventData` note in the trace: the hook points of pending_hooks/wp-io.patch (system-call results, io timer, socket birth) are not in the tree" else
   let st := r.st
@@ -380,13 +420,19 @@ def allQuiet (r : RSt) : Option String :=
   match us.find? fun p => !(match st.upc p.2 with | .idle | .done _ => true | _ => false) with
   | some p => some s!"caller {p.1} is still at {upcName (st.upc p.2)} at the end of a finished run"
   | none =>
-  match ks.find? fun p => st.kpc p.2 != .off with
+  -- (a tail whose last step – the cancel re-check after the publication – is cut off by the end of the scenario: its coroutine has
+  --  long been resumed, the check of a clear bit changes nothing)
+  let benignK := fun (pc : KPc) => match pc with
+    | .off => true
+    | .chk2 _ c => !st.cbit c
+    | _ => false
+  match ks.find? fun p => !benignK (st.kpc p.2) with
   | some p => some s!"kernel tail {p.1} is still at {kpcName (st.kpc p.2)}"
   | none =>
   -- a selector whose `fetch_or` was the last event of the scenario takes in the next one: on an empty slot that is a no-op
   let benign := fun (pc : WPc) => match pc with
     | .idle => true
-    | .sTake s | .xtake s | .fTake s _ | .fOr s _ => (st.slot s).isNone
+    | .sTake s | .xtake s | .fTake s _ | .fOr s _ | .fChk s _ => (st.slot s).isNone
     | _ => false
   match ws.find? fun p => !benign (st.wpc p.2) with
   | some p => some s!"worker {p.1} is still at {wpcName (st.wpc p.2)}"
@@ -394,7 +440,11 @@ def allQuiet (r : RSt) : Option String :=
 
 def machine : Machine where
   St := RSt
-  init := fun _ => .ok { st := init (fun c => c % 2 == 0) }
+  -- which tree the trace comes from: the harness derives `timerfix=` / `regfirst=` from the source it was built against
+  -- (harness/src/scn/live_io.rs `source_flags`); absent = /repo 960ad58 without the two repairs
+  init := fun hdr =>
+    let flag := fun (k : String) => (hdr.find? (·.1 == k)).map (·.2) == some "1"
+    .ok { st := initCfg true true (flag "regfirst") (flag "timerfix") (fun c => c % 2 == 0) }
   actor := fun _ _ => some 0
   cands := cands
   inv := fun r => if r.st.bad then some "a coroutine was resumed while it was not switched off"
